@@ -16,6 +16,57 @@ R1_TEXT = ("in BlockEncoder::read the non-forced close-object flag of a data pac
            "`blocks.len() == 1` guard), not only on the current block and the source-byte counter")
 
 
+R5_TEXT = ("a symbol is a source symbol iff esi < nb_source_symbols (all orderings); only source symbols advance the "
+           "source-byte counter that feeds the close-object decision")
+
+
+def source_symbol_rule(ctx, r5):
+    from .. import polarity
+    prog = ctx.prog
+    br = prog.fn(BLOCK + "::read")
+    ctx.analysed(br.path)
+    x5 = X(br.body)
+    found = 0
+    for blk in br.body.blocks:
+        if blk.cleanup:
+            continue
+        for st in blk.stmts:
+            if st.k == "assign" and st.rv.k == "aggr" and st.rv.j.get("adt") == "sender::block::EncodingSymbol":
+                names = st.rv.j["fnames"]
+                e = Slicer(br.body).expand(x5.operand(st.rv.ops[names.index("is_source_symbol")]))
+                fs = cfgmod.facts_of(e, True)
+                kind, key, fn = polarity.canon(fs[0])
+                found += 1
+                if kind != "sign":
+                    r5.violation("Block::read is_source_symbol", "not a comparison of esi with nb_source_symbols: %s" % show(e, 80), loc(st.sp))
+                    continue
+                txt = polarity.show_key(key)
+                coeff = {n: v for n, v in key[0]}
+                esi_c = [v for n, v in coeff.items() if "esi" in n]
+                k_c = [v for n, v in coeff.items() if "nb_source_symbols" in n]
+                if not (len(coeff) == 2 and esi_c and k_c and key[1] == 0):
+                    r5.violation("Block::read is_source_symbol", "compares `%s` with 0; expected esi - nb_source_symbols" % txt, loc(st.sp))
+                    continue
+                o = 1 if esi_c[0] > 0 else -1          # key = o * (esi - k)
+                table = {d: fn(o * d) for d in (-1, 0, 1)}   # d = sign(esi - k)
+                if table == {-1: True, 0: False, 1: False}:
+                    r5.ok("Block::read is_source_symbol", "true iff esi < nb_source_symbols", loc(st.sp))
+                else:
+                    r5.violation("Block::read is_source_symbol", "is_source_symbol over sign(esi - nb_source_symbols) in (<0, =0, >0) is %s; a repair symbol "
+                                                                 "(esi == k) must not count as source data" % [table[d] for d in (-1, 0, 1)], loc(st.sp))
+    if not found:
+        raise model.AnchorMissing("Block::read builds no EncodingSymbol")
+    for a in field_accesses(prog, BE, "source_size_transferred"):
+        if a["kind"] != "assign":
+            continue
+        fl5 = Flow(a["func"].body)
+        fs = fl5.facts_at(a["bb"])
+        if any(ff[0][0] == "true" and ff[1] and show(ff[0][1]).endswith("is_source_symbol") for ff in fs):
+            r5.ok("%s counts source bytes only" % a["func"].path.split("::")[-1], "", loc(a["sp"]))
+        else:
+            r5.violation("%s counts source bytes only" % a["func"].path.split("::")[-1], "source_size_transferred advanced for a symbol not known to be a source symbol", loc(a["sp"]))
+
+
 def pkt_constructions(prog, f):
     out = []
     for blk in f.body.blocks:
@@ -283,48 +334,8 @@ def run(ctx):
 
     # ---- R5 -----------------------------------------------------------------------------
     from .. import polarity
-    r5 = ctx.rule("C08.R5", "a symbol is a source symbol iff esi < nb_source_symbols (all orderings); only source symbols advance the "
-                            "source-byte counter that feeds the close-object decision", "E3 sign table + DOM")
-    x5 = X(br.body)
-    found = 0
-    for blk in br.body.blocks:
-        if blk.cleanup:
-            continue
-        for st in blk.stmts:
-            if st.k == "assign" and st.rv.k == "aggr" and st.rv.j.get("adt") == "sender::block::EncodingSymbol":
-                names = st.rv.j["fnames"]
-                e = Slicer(br.body).expand(x5.operand(st.rv.ops[names.index("is_source_symbol")]))
-                fs = cfgmod.facts_of(e, True)
-                kind, key, fn = polarity.canon(fs[0])
-                found += 1
-                if kind != "sign":
-                    r5.violation("Block::read is_source_symbol", "not a comparison of esi with nb_source_symbols: %s" % show(e, 80), loc(st.sp))
-                    continue
-                txt = polarity.show_key(key)
-                coeff = {n: v for n, v in key[0]}
-                esi_c = [v for n, v in coeff.items() if "esi" in n]
-                k_c = [v for n, v in coeff.items() if "nb_source_symbols" in n]
-                if not (len(coeff) == 2 and esi_c and k_c and key[1] == 0):
-                    r5.violation("Block::read is_source_symbol", "compares `%s` with 0; expected esi - nb_source_symbols" % txt, loc(st.sp))
-                    continue
-                o = 1 if esi_c[0] > 0 else -1          # key = o * (esi - k)
-                table = {d: fn(o * d) for d in (-1, 0, 1)}   # d = sign(esi - k)
-                if table == {-1: True, 0: False, 1: False}:
-                    r5.ok("Block::read is_source_symbol", "true iff esi < nb_source_symbols", loc(st.sp))
-                else:
-                    r5.violation("Block::read is_source_symbol", "is_source_symbol over sign(esi - nb_source_symbols) in (<0, =0, >0) is %s; a repair symbol "
-                                                                 "(esi == k) must not count as source data" % [table[d] for d in (-1, 0, 1)], loc(st.sp))
-    if not found:
-        raise model.AnchorMissing("Block::read builds no EncodingSymbol")
-    for a in field_accesses(prog, BE, "source_size_transferred"):
-        if a["kind"] != "assign":
-            continue
-        fl5 = Flow(a["func"].body)
-        fs = fl5.facts_at(a["bb"])
-        if any(ff[0][0] == "true" and ff[1] and show(ff[0][1]).endswith("is_source_symbol") for ff in fs):
-            r5.ok("%s counts source bytes only" % a["func"].path.split("::")[-1], "", loc(a["sp"]))
-        else:
-            r5.violation("%s counts source bytes only" % a["func"].path.split("::")[-1], "source_size_transferred advanced for a symbol not known to be a source symbol", loc(a["sp"]))
+    r5 = ctx.rule("C08.R5", R5_TEXT, "E3 sign table + DOM")
+    source_symbol_rule(ctx, r5)
     r5.floor(2, "source symbol facts")
 
     # ---- R6 -----------------------------------------------------------------------------
